@@ -329,6 +329,7 @@ class FuncContract:
         self.param_names = None
         self.tags = []
         self.opaque = False
+        self.assume_terminates = None
 
     def all_text(self):
         parts = [self.header]
@@ -356,7 +357,7 @@ class LemmaDef:
 
 
 FUNC_CLAUSES = ('requires', 'ensures', 'assigns', 'nopanic', 'inline', 'trusted', 'pure', 'decreases',
-                'loop', 'invariant', 'use', 'tags', 'modifies', 'opaque', 'induction', 'trigger')
+                'loop', 'invariant', 'use', 'tags', 'modifies', 'opaque', 'induction', 'trigger', 'terminates')
 
 
 def strip_comment(s):
@@ -510,6 +511,9 @@ class ContractSet:
                 target.opaque = True
             elif kw == 'trusted':
                 target.trusted = True
+            elif kw == 'terminates':
+                # `terminates assumed <reason>`: recursion without a checkable measure; recorded as an assumption
+                target.assume_terminates = rest
             elif kw == 'pure':
                 target.pure = True
                 target.assigns = []
@@ -588,6 +592,8 @@ class ContractSet:
         self.parse_clauses(g, fc)
         if fc.trusted:
             self.assumptions.append('trusted contract (not verified): %s' % (fc.key,))
+        if fc.assume_terminates:
+            self.assumptions.append('termination of the recursion in %s assumed: %s' % (fc.key, fc.assume_terminates))
 
     def parse_lemma(self, prog, pkg, word, g):
         g = list(g)
@@ -631,6 +637,10 @@ def split_top(s):
 def parse_assign_target(s):
     """c.f | c.f[*] | x.f.g | *p | fresh-only"""
     s = s.strip()
+    m = re.match(r'^any\((\w+(?:\.\w+)?)\)\.(\w+)$', s)
+    if m:
+        # any(T).f : field f of every object of struct type T
+        return ('fieldall', (m.group(1), m.group(2)), s)
     star = False
     if s.endswith('[*]'):
         star = True
